@@ -182,8 +182,132 @@ def _panel(task, rec):
                                   f'panel with {nind} individuals / {len(rows)} rows, T={T}: scaled={lls!r}, {float(ds.function)!r}; LL={ll!r}', case)
 
 
+# ------------------------------------------------------------------ operation histories on one Database
+H_OPS = ['new', 'new_big', 'll', 'sim', 'remove', 'boot', 'init0', 'init_half']
+
+
+def _history_rows(nrows):
+    rows = []
+    for k in range(nrows):
+        base = dict(POOL_ROWS[k % 6])
+        base['x1'] = base['x1'] + 0.125 * (k // 6)
+        base['w'] = base['w'] + 0.25 * ((k // 6) % 3)
+        rows.append(base)
+    return rows
+
+
+def _run_history(hist, rec):
+    """Replays one history on a fresh Database / fresh BIOGEME objects; after every step that reports a log likelihood the
+    value must be the weighted sum of the per-observation values on the table as it is now."""
+    import multiprocessing as mp
+    import numpy as np
+    import numpy.random as npr
+    from vf.engine import make_db, make_biogeme
+    big_t = 2 * mp.cpu_count() + 1
+    nrows = 3 * big_t if 'new_big' in hist else 8
+    rows = _history_rows(nrows)
+    model, weight = 'smooth', 'column'
+    spec = {n: (v, None, None, 0) for n, v in PARAMS[0].items()}
+    db = make_db(rows, COLS)
+    b = None
+    created_after_remove = True
+    free = sorted(R.leaves(MODELS[model], 'beta'))
+    case = dict(part='history', history=list(hist))
+    x = PARAMS[0]
+
+    def ref_sum(params):
+        return sum(R.evaluate(WEIGHTS[weight], r, params) * R.evaluate(MODELS[model], r, params) for r in rows)
+
+    for step, op in enumerate(hist):
+        key = ('history', tuple(hist[:step + 1]))
+        try:
+            if op in ('new', 'new_big'):
+                ll_e = R.Builder(spec).build(MODELS[model])
+                w_e = R.Builder(spec).build(WEIGHTS[weight])
+                b = make_biogeme(db, {'log_like': ll_e, 'weight': w_e}, number_of_threads=big_t if op == 'new_big' else 2,
+                                 bootstrap_samples=1, max_iterations=6)
+                b.modelName = 'c04h'
+                created_after_remove = True
+            elif op == 'remove':
+                cond = R.Builder(spec).build(('>', ('var', 'x1'), ('num', 2.25)))
+                db.remove(cond)
+                rows = [r for r in rows if not r['x1'] > 2.25]
+                created_after_remove = False
+            elif b is None or not created_after_remove:
+                rec.count('history_steps_not_applicable')
+                return
+            elif op == 'll':
+                names = list(b.free_beta_names)
+                xv = np.array([x[nm] for nm in names], dtype=float)
+                got = float(b.calculate_likelihood(xv, scaled=False))
+                gots = float(b.calculate_likelihood(xv, scaled=True))
+                d = b.calculate_likelihood_and_derivatives(xv, scaled=False, hessian=False, bhhh=False)
+                want = ref_sum(x)
+                rec.case(key, (hist[:step + 1], round(got, 9)), outcome=('ll', len(rows)))
+                if not close(got, want, 1e-9) or not close(float(d.function), want, 1e-9) or not close(gots, want / len(rows), 1e-9):
+                    rec.violation(f'C04|ll-not-weighted-sum-after-history|{"big-threads" if "new_big" in hist[:step + 1] else "small"}',
+                                  f'history {hist[:step + 1]}: LL={got!r} / {float(d.function)!r}, scaled={gots!r}; weighted sum over the '
+                                  f'{len(rows)} current rows = {want!r}', case, expected=want, observed=got)
+                    return
+            elif op == 'sim':
+                out = b.simulate({nm: x[nm] for nm in b.free_beta_names})
+                ll = [float(v) for v in out['log_like']]
+                want = [R.evaluate(MODELS[model], r, x) for r in rows]
+                rec.case(key, (hist[:step + 1], len(ll)), outcome=('sim', len(rows)))
+                if len(ll) != len(want) or any(not close(a, c, 1e-9) for a, c in zip(ll, want)):
+                    rec.violation('C04|simulate-differs-from-reference|history', f'history {hist[:step + 1]}: {ll[:4]}... expected {want[:4]}...', case)
+                    return
+            elif op == 'boot':
+                saved = npr.randint
+                npr.randint = lambda low, high=None, size=None, **kw: np.arange(len(rows) - 1, -1, -1) // 2
+                try:
+                    b.estimate(run_bootstrap=True)
+                finally:
+                    npr.randint = saved
+                rec.case(key, (hist[:step + 1], 'boot'), outcome='boot')
+            elif op in ('init0', 'init_half'):
+                val = 0.0 if op == 'init0' else 0.5
+                b.change_init_values({nm: val for nm in b.free_beta_names})
+                cur = b.get_beta_values()
+                got = float(b.calculate_init_likelihood())
+                want = ref_sum({nm: cur[nm] for nm in free})
+                rec.case(key, (hist[:step + 1], round(got, 9)), outcome=('init', val))
+                if any(cur[nm] != val for nm in free):
+                    rec.violation('C04|change_init_values-not-applied|history', f'history {hist[:step + 1]}: get_beta_values()={cur}', case)
+                    return
+                if not close(got, want, 1e-9):
+                    rec.violation('C04|init-likelihood-not-weighted-sum-at-current-values|history',
+                                  f'history {hist[:step + 1]}: calculate_init_likelihood()={got!r}; weighted sum at the current values {cur} = {want!r}',
+                                  case, expected=want, observed=got)
+                    return
+        except Exception as e:
+            rec.case(key, (hist[:step + 1], type(e).__name__), outcome='raised')
+            rec.violation(f'C04|history-raised-{type(e).__name__}|op={op}', f'history {hist[:step + 1]}: {type(e).__name__}: {str(e)[:200]}', case)
+            return
+
+
+def history_list(tier):
+    depth = 4 if tier == 'quick' else 5
+    out = []
+    for n in range(2, depth + 1):
+        for h in itertools.product(H_OPS, repeat=n):
+            if h[0] not in ('new', 'new_big'):
+                continue
+            if h[-1] not in ('ll', 'init0', 'init_half', 'sim'):
+                continue               # a history ends with an observation
+            if sum(1 for o in h if o == 'new_big') > 1 or sum(1 for o in h if o == 'boot') > 1 or sum(1 for o in h if o == 'remove') > 1:
+                continue
+            if 'new_big' in h and tier == 'quick' and len(h) > 3:
+                continue
+            out.append(list(h))
+    return out
+
+
 def tasks(tier, seed):
     t = [dict(part='panel')]
+    hl = history_list(tier)
+    for i in range(0, len(hl), 12):
+        t.append(dict(part='history', lo=i, hi=min(i + 12, len(hl)), tier=tier))
     for model in MODELS:
         for weight in WEIGHTS:
             for tab in tables(tier):
@@ -195,6 +319,12 @@ def run_task(task):
     rec = Rec()
     if task.get('part') == 'panel':
         _panel(task, rec)
+        return rec.result()
+    if task.get('part') == 'history':
+        hl = history_list(task['tier'])
+        for h in hl[task['lo']:task['hi']]:
+            _run_history(h, rec)
+        rec.sample(dict(part='history', first=hl[task['lo']]))
         return rec.result()
     model, weight, tab, tier = task['model'], task['weight'], task['table'], task['tier']
     rows0 = [POOL_ROWS[i] for i in tab]
@@ -288,5 +418,9 @@ def run_task(task):
 def replay(case):
     if case.get('part') == 'panel':
         return run_task(dict(part='panel'))['violations']
+    if case.get('part') == 'history':
+        rec = Rec()
+        _run_history(case['history'], rec)
+        return rec.violations
     r = run_task(dict(model=case['model'], weight=case['weight'], table=case['table'], tier=case['tier']))
     return r['violations']
